@@ -576,6 +576,34 @@ def run(prog: Program, res: Result) -> None:
                 res.ok("C17.R2c", f"{rel}:{r.lineno} {fi.qualname}", what, "carries a token")
     res.floor("C17.R2c", "raise sites in the lexer", n_raise, 5)
 
+    # ---------------------------------------------------------------- R7: scanner mode flags are per expression
+    res.rule("C17.R7", "a mode flag that accept_token switches on while scanning an expression (e.g. in_range after `..`) does not outlive that expression: wherever a state function starts a fresh expression list (`self.expression = []`) it also switches every such flag off - otherwise an unfinished construct in one markup makes the lexer reject a later, valid markup and report the error there")
+    at = lexer.methods.get("accept_token")
+    if at is None:
+        raise AnalysisError("Lexer.accept_token vanished")
+    flags = sorted({t.attr for a in ast.walk(at.node) if isinstance(a, ast.Assign) and isinstance(a.value, ast.Constant) and a.value.value is True for t in a.targets if isinstance(t, ast.Attribute) and isinstance(t.value, ast.Name) and t.value.id == "self"})
+    res.floor("C17.R7", "mode flags set by accept_token", len(flags), 1)
+    n_reset = 0
+    for fi in prog.all_functions():
+        if fi.module is not mod or fi.cls is not lexer or fi.name == "__init__":
+            continue
+        for body_owner in ast.walk(fi.node):
+            for fld in ("body", "orelse", "finalbody"):
+                body = getattr(body_owner, fld, None)
+                if not isinstance(body, list):
+                    continue
+                for st in body:
+                    if isinstance(st, ast.Assign) and any(_is_self_attr(t, "expression") for t in st.targets) and isinstance(st.value, ast.List) and not st.value.elts:
+                        n_reset += 1
+                        site = f"{rel}:{st.lineno} {fi.qualname}"
+                        what = f"{fi.qualname}: a fresh expression list starts with the flags {flags} off"
+                        missing = [f for f in flags if not any(isinstance(x, ast.Assign) and any(_is_self_attr(t, f) for t in x.targets) and isinstance(x.value, ast.Constant) and x.value.value is False for x in body)]
+                        if not missing:
+                            res.ok("C17.R7", site, what, "reset next to `self.expression = []`")
+                        else:
+                            res.fail("C17.R7", file=rel, line=st.lineno, qualname=fi.qualname, construct=f"{fi.qualname}: expression list reset without resetting {missing}", message=f"{fi.qualname} starts the next markup's expression list but leaves self.{missing[0]} as the previous expression set it: after `{{% if a..b %}}` the next closing parenthesis anywhere in the template is taken for the end of a range and a valid tag is rejected, with the error positioned in that tag", what=what)
+    res.floor("C17.R7", "expression-list resets in the state functions", n_reset, 4)
+
     progress_rule(prog, res, lexer, lm, state_fns)
 
     # ---------------------------------------------------------------- R1d: saved start marks are fresh when a token is built from them
